@@ -38,6 +38,8 @@ pub enum Marker {
     CompactEnd,
     IntegrityBegin,
     IntegrityEnd,
+    /// after recovery the model resynchronised: contents equal version `landed`; a copy was pushed as `new`
+    Resynced { landed: u32, new: u32 },
     Other(u32),
 }
 
